@@ -12,7 +12,9 @@ about the tokens themselves, for EVERY finite binary64 weight and binary32 cut-o
   of the last printed decimal ("weights to the two and cut-offs to the one decimal the format prints");
 * `wt_line_tokens`, `wt_line_weight_token`: the reader's tokenizer (`esl_memtok` on blank/tab, as `stockholm_parse_gs` calls it) takes
   the written line `#=GS <name> WT <token>` apart into exactly `#=GS`, the name, `WT` and the printed token: the bytes handed to
-  `esl_memtod` ARE the bytes `printf("%.2f")` produced (token round trip). -/
+  `esl_memtod` ARE the bytes `printf("%.2f")` produced (token round trip);
+* `wgtTokOk_iff`: the hypothesis `wgtTokOk` of the Stockholm round trip holds for EVERY finite weight except those that print as
+  `-1.00` (which `strtod` reads as -1.0, the reader's "no weight" marker): `strtodIsMinusOne` evaluated on the printed token. -/
 namespace EaselModel.Msafile
 
 /-! ## the integer `fmtFixed` prints -/
@@ -304,5 +306,149 @@ theorem wt_line_weight_token (m : Msa) (i : Nat) (hn : nameOk (m.names.getD i []
   obtain ⟨_, _, _, _, _, _, _, hr⟩ := fmtF2_wellformed _ hf
   obtain ⟨p1, p2, a, b, c, d⟩ := wt_line_tokens m i (wtTok m i) hn hr.name
   exact ⟨p1, p2, a, b, c, d, hr.real⟩
+
+/-! ## which weights the round trip carries: `wgtTokOk (fmtF2 b)` exactly -/
+
+theorem digit_not_x : ∀ c : UInt8, isDigit c = true → c ≠ 120 ∧ c ≠ 88 ∧ isSpace c = false := by
+  intro c h
+  have h1 : (List.range 256).all (fun n => let c := UInt8.ofNat n; !isDigit c || (c != 120 && c != 88 && !isSpace c)) = true := by decide +kernel
+  have := (List.all_eq_true.mp h1) c.toNat (List.mem_range.mpr c.toNat_lt)
+  simp only [UInt8.ofNat_toNat, h, Bool.not_true, Bool.false_or, Bool.and_eq_true, bne_iff_ne, ne_eq, Bool.not_eq_true'] at this
+  exact ⟨this.1.1, this.1.2, this.2⟩
+
+/-- the decimal branch of `strtod(tok) == -1.0` on `-<ip>.<fp>` -/
+def decMinusOne (ip fp : Bytes) : Bool :=
+  roundsToOne (digitsVal (ip ++ fp)) 10 (0 - Int.ofNat fp.length) (Nat.toDigits 10 (digitsVal (ip ++ fp))).length
+
+theorem strtodIsMinusOne_neg (ip fp : Bytes) (hip : ip ≠ []) (h1 : allDig ip) (h2 : allDig fp) :
+    strtodIsMinusOne (45 :: (ip ++ 46 :: fp)) = decMinusOne ip fp := by
+  obtain ⟨d, ip', rfl⟩ : ∃ d ip', ip = d :: ip' := by
+    cases ip with
+    | nil => exact absurd rfl hip
+    | cons d t => exact ⟨d, t, rfl⟩
+  have h46 : ∀ c, (46 :: fp).head? = some c → isDigit c = false := by
+    intro c hc; simp at hc; subst hc; decide
+  obtain ⟨a, b⟩ := takeWhile_digits (d :: ip') (46 :: fp) h1 h46
+  obtain ⟨a2, b2⟩ := takeWhile_digits fp [] h2 (fun c hc => by simp at hc)
+  rw [List.append_nil] at a2 b2
+  unfold strtodIsMinusOne
+  simp only [List.dropWhile, show isSpace 45 = false by decide]
+  split
+  · rename_i x r heq
+    have hx : (x == 120 || x == 88) = false := by
+      cases ip' with
+      | nil =>
+        simp only [List.cons_append, List.nil_append, List.cons.injEq] at heq
+        rw [← heq.2.1]; decide
+      | cons d2 t =>
+        simp only [List.cons_append, List.cons.injEq] at heq
+        have := digit_not_x d2 (h1 d2 (by simp))
+        rw [← heq.2.1]
+        simp [this.1, this.2.1]
+    simp only [hx, Bool.false_and, Bool.false_eq_true, if_false, a, b, a2, b2, List.isEmpty_cons]
+    unfold decMinusOne
+    simp [parseExp]
+  · simp only [a, b, a2, b2, List.isEmpty_cons, Bool.false_and, Bool.false_eq_true, if_false]
+    unfold decMinusOne
+    simp [parseExp]
+
+theorem digitsVal_foldl (fp : Bytes) : ∀ a : Nat,
+    List.foldl (fun a (c : UInt8) => a * 10 + (c.toNat - 48)) a fp = a * 10 ^ fp.length + digitsVal fp := by
+  induction fp with
+  | nil => intro a; simp [digitsVal]
+  | cons c t ih =>
+    intro a
+    unfold digitsVal
+    rw [List.foldl_cons, List.foldl_cons, ih, ih (0 * 10 + (c.toNat - 48)), List.length_cons, Nat.pow_succ, Nat.add_mul,
+      Nat.mul_assoc, Nat.mul_comm 10 (10 ^ t.length)]
+    simp only [Nat.zero_mul, Nat.zero_add, Nat.add_assoc]
+
+theorem digitsVal_append (ip fp : Bytes) : digitsVal (ip ++ fp) = digitsVal ip * 10 ^ fp.length + digitsVal fp := by
+  show List.foldl _ 0 (ip ++ fp) = _
+  rw [List.foldl_append, digitsVal_foldl]
+  rfl
+
+/-- hundredths: `-m/100` is read as -1.0 exactly when `m = 100` -/
+theorem roundsToOne_hundredths (m s : Nat) : roundsToOne m 10 (0 - Int.ofNat 2) s = true → m = 100 := by
+  unfold roundsToOne
+  intro h
+  by_cases h0 : (m == 0) = true
+  · simp [h0] at h
+  · simp only [h0, Bool.false_eq_true, if_false] at h
+    have hneg : ¬ ((0 : Int) - Int.ofNat 2 ≥ 0) := by decide
+    simp only [hneg, if_false] at h
+    have hk : (-((0 : Int) - Int.ofNat 2)).toNat = 2 := by decide
+    simp only [hk] at h
+    split at h
+    · cases h
+    · simp only [Bool.and_eq_true, decide_eq_true_eq] at h
+      omega
+
+theorem roundsToOne_100 : roundsToOne 100 10 (0 - Int.ofNat 2) (Nat.toDigits 10 100).length = true := by decide +kernel
+
+/-- **which finite weights the Stockholm round trip can carry: all of them except those that print as `-1.00`** (the reader takes
+    -1.0 for "no weight given") -/
+theorem wgtTokOk_iff (b : UInt64) (h : finiteF64 b) :
+    wgtTokOk (fmtF2 b) ↔ ¬ (f64Neg b = true ∧ fixedQ (f64Mant b) (f64Exp b) 2 = 100) := by
+  obtain ⟨ip, fp, he, h1, h2, h3, h4, h5, h6⟩ := fmtFixed_read (f64Neg b) (f64Mant b) (f64Exp b) 2 (by decide)
+  have hq : digitsVal (ip ++ fp) = fixedQ (f64Mant b) (f64Exp b) 2 := by
+    unfold decTokUnits at h6
+    rw [h5] at h6
+    rw [digitsVal_append]; exact h6
+  rw [fmtF2_fixed b h]
+  have hr : RealTok (fmtFixed (f64Neg b) (f64Mant b) (f64Exp b) 2) := by
+    rw [he]; exact realTok_of_shape _ ip fp (by cases f64Neg b <;> simp) h1 h2 h3
+  have hcore : strtodIsMinusOne (fmtFixed (f64Neg b) (f64Mant b) (f64Exp b) 2) = false ↔
+      ¬ (f64Neg b = true ∧ fixedQ (f64Mant b) (f64Exp b) 2 = 100) := by
+    rw [he]
+    cases hn : f64Neg b with
+    | false =>
+      simp only [Bool.false_eq_true, if_false, List.nil_append, false_and, not_false_eq_true, iff_true]
+      obtain ⟨d, ip', rfl⟩ : ∃ d ip', ip = d :: ip' := by
+        cases ip with
+        | nil => exact absurd rfl h1
+        | cons d t => exact ⟨d, t, rfl⟩
+      have hd := digit_facts d (h2 d (by simp))
+      unfold strtodIsMinusOne
+      have hdw : (d :: ip' ++ 46 :: fp).dropWhile isSpace = d :: ip' ++ 46 :: fp := by simp [hd.2.2.2.1]
+      rw [hdw]
+      split
+      · rename_i p heq
+        simp only [List.cons_append, List.cons.injEq] at heq
+        exact absurd heq.1 hd.2.2.2.2.1
+      · rfl
+    | true =>
+      simp only [if_true, List.cons_append, List.nil_append, true_and]
+      rw [strtodIsMinusOne_neg ip fp h1 h2 h3]
+      unfold decMinusOne
+      rw [hq, h4]
+      constructor
+      · intro hf he100
+        rw [he100, roundsToOne_100] at hf; cases hf
+      · intro hne
+        cases hx : roundsToOne (fixedQ (f64Mant b) (f64Exp b) 2) 10 (0 - Int.ofNat 2)
+            (Nat.toDigits 10 (fixedQ (f64Mant b) (f64Exp b) 2)).length with
+        | false => rfl
+        | true => exact absurd (roundsToOne_hundredths _ _ hx) hne
+  unfold wgtTokOk
+  constructor
+  · intro hw; exact hcore.mp hw.2.2.2.2
+  · intro hne; exact ⟨hr.name, hr.real, hr.nolf, hr.nocr, hcore.mpr hne⟩
+
+/-- -1.0 itself, and -0.996 (prints as `-1.00`), are the excluded weights; -1.01 and -0.99 are carried -/
+example : ¬ wgtTokOk (fmtF2 0xbff0000000000000) := by
+  rw [wgtTokOk_iff _ (by unfold finiteF64; decide)]; decide +kernel
+example : wgtTokOk (fmtF2 0xbff028f5c28f5c29) ∧ fmtF2 0xbff028f5c28f5c29 = str "-1.01" := by
+  refine ⟨?_, by decide +kernel⟩
+  rw [wgtTokOk_iff _ (by unfold finiteF64; decide)]; decide +kernel
+
+/-- **token round trip for cut-offs**: the value text of a two-threshold `#=GF GA|NC|TC` line, `<tok1> <tok2>`, comes apart under
+    `esl_memtok` into exactly the two tokens `printf("%.1f")` produced, and `esl_mem_IsReal` accepts both -/
+theorem cutoff_value_tokens (a b : UInt32) (ha : finiteF32 a) (hb : finiteF32 b) :
+    memtok (fmtF1 a ++ [32] ++ fmtF1 b) blankTab = some (fmtF1 a, fmtF1 b) ∧ memtok (fmtF1 b) blankTab = some (fmtF1 b, []) ∧
+      memIsReal (fmtF1 a) = true ∧ memIsReal (fmtF1 b) = true := by
+  have ra := fmtF1_realTok a ha
+  have rb := fmtF1_realTok b hb
+  exact ⟨memtok_tok (fmtF1 a) [32] (fmtF1 b) ra.name ⟨by simp, by simp⟩ (nameOk_head _ rb.name), memtok_name _ rb.name, ra.real, rb.real⟩
 
 end EaselModel.Msafile
